@@ -145,6 +145,21 @@ CHECKS["C16"] = ("proof",
     "protobuf wire format is an uninterpreted function with inverse (fakes via model_for); regex capture semantics modelled with "
     "solver-checked disjointness/unique-split obligations; attrs plumbing beyond the listed accessors is bounded only.",
     "symbolic execution of the real AST, sre-parsed real URL pattern to z3 regex, VCs by z3/cvc5; bounded real-protobuf round trips", "3 C16")
+CHECKS["C04"] = ("proof",
+    "Deductive on the real Transaction._serialize_for_signature (1x1..2x2 transactions, arbitrary leftover scripts, warm caches): equals the "
+    "SIGHASH_ALL pre-image written from the Bitcoin definition (spent script at i, empty elsewhere, all outputs, locktime, 01000000); "
+    "Transaction.sign (1..2 P2PKH inputs, real bip32.PrivateKey.sign / public_key over modelled coincurve): every input ends as "
+    "<sig||01> <pubkey> with the signature by the wallet key of the spent address over double-SHA256 of that pre-image, hash160(pubkey) = "
+    "spent hash, raw/id recomputed; Output.sign / get_signature_digest / is_signed_by / is_signature_valid: sign and validate build the same "
+    "digest sha256(first input outpoint || channel claim hash || message) (legacy layout too), validation is ECDSA verification of exactly "
+    "that digest under the key of the channel argument; envelope layout; both digest layouts injective in their fields. Bounded (labelled): "
+    "real Ledger+Accounts signing 1..5 inputs judged by an independent pure-python secp256k1 verifier and SIGHASH_ALL digest; ~10000 "
+    "single-bit/field mutations of 6 signed objects must stop validating; 3 recorded legacy vectors still validate.",
+    "libsecp256k1/coincurve enter as uninterpreted ground facts (agreement with an independent implementation is bounded only); "
+    "'mutated object does not validate' follows from the injective layout under collision resistance + unforgeability (named hypotheses); "
+    "more than 2 inputs/outputs, time-lock and segwit spends are not covered symbolically.",
+    "symbolic execution of the real AST with uninterpreted ECDSA/SHA-256, structural byte strings, VCs by z3/cvc5; bounded real signing "
+    "with an independent verifier", "3 C04")
 CHECKS["C08"] = ("proof",
     "Deductive on the real Ledger.get_root_of_merkle_tree (loop invariant against the recursive Merkle fold, branch of ANY length, any "
     "position), maybe_verify_transaction over the real Headers.get/_read/deserialize on a symbolic header file with a recording fake "
@@ -158,6 +173,22 @@ CHECKS["C08"] = ("proof",
     "SHA-256 uninterpreted (mutation clauses conditional on named no-collision instances); header validity is C07's subject; the network "
     "replies are fully symbolic; completeness for block sizes 18..30, 34..46, 49..62 only bounded.",
     "symbolic execution of the real AST with loop invariant + recursive spec, uninterpreted SHA-256, VCs by z3/cvc5; bounded real-SHA blocks", "3 C08")
+CHECKS["C09"] = ("other",
+    "Contracts carry part of the statement deductively and the convergence clauses as labelled bounded stand-ins. Deductive on the real "
+    "Ledger.update_history (0-3 server entries with symbolic heights, arbitrary stored history): what is saved is exactly the server's "
+    "list rendered 'txid:height:' in server order, for that address, at most once, iff the server lists an entry the wallet lacks; every "
+    "new entry is requested; every read/fetch/write happens under _address_update_locks[address], released on every path (also after an "
+    "injected OSError); same status -> nothing fetched or saved; process_status_update never drops a notification; "
+    "HierarchicalDeterministic.ensure_address_gap/_generate_keys (gap 1..3, thorough 4/6/20): last `gap` addresses unused, indices "
+    "consecutive, nothing generated when the gap exists; Database._transaction_io/txo_to_row/tx_to_row: every output paying the address "
+    "gets its txo row, every resolved spend its txi row, nothing foreign booked. Bounded (labelled): real Ledger + sqlite Database + "
+    "Account against a FakeServer: seeded chains (fund, spend, claim, support, re-spend, third-party outputs of every template, mempool -> "
+    "confirmed), notifications in random order / all at once / gathered / stale / during an in-flight update: stored history, balance "
+    "(claims apart), UTXO set, gap discovery and maintenance equal the oracle computed from the chain. Known findings F10, F10b.",
+    "History/balance/UTXO convergence and order independence are bounded only (whole-history property over a database); SQL call-site "
+    "contracts trusted and cross-checked on real sqlite; honest server; restarts, reorgs, several accounts not covered.",
+    "symbolic execution of the real AST with the asyncio lock model (per-call contracts), VCs by z3/cvc5; bounded seeded sync simulations "
+    "on the real ledger and database", "3 C09")
 CHECKS["C10"] = ("proof",
     "Deductive on the real BlobServerProtocol.handle_request / data_received and BlobExchangeClientProtocol.data_received / _write / "
     "_download_blob (asyncio model, json uninterpreted on arbitrary text): blob bytes leave only for a verified blob, right after the one "
